@@ -400,6 +400,7 @@ type Key struct {
 	Rho, KeySeed, Tr []byte
 	S1               [L]Poly
 	S2, T0, T1       [K]Poly
+	AS1              [K]Poly // A*s1 mod q, before s2 is added (for boundary classification of key generation)
 	A                [K][L]Poly
 	PK, SK           []byte
 }
@@ -424,6 +425,7 @@ func KeyGen(zeta []byte) *Key {
 			m := Mul(&k.A[i][j], &k.S1[j])
 			t = Add(&t, &m)
 		}
+		k.AS1[i] = t
 		t = Add(&t, &k.S2[i])
 		for c := 0; c < N; c++ {
 			a1, a0 := Power2Round(t[c])
@@ -838,3 +840,34 @@ func ExpandACoeff(rho []byte) *[K][L]Poly { return expandACached(rho) }
 
 // InvMod returns a^-1 mod q.
 func InvMod(a int64) int64 { return powmod(Mod(a), Q-2) }
+
+
+// KeyBoundaries classifies boundary events of key generation:
+// "t-wrap": some coefficient of A*s1 + s2 leaves [0,q) before reduction (needs the reduction to happen AFTER the addition);
+// "p2r-tie": some coefficient of t has low part exactly +2^(d-1) (the rounding tie of Power2Round; t0 = +4096);
+// "t-zero": some coefficient of t is exactly 0 or q-1.
+func (k *Key) KeyBoundaries() []string {
+	seen := map[string]bool{}
+	for i := 0; i < K; i++ {
+		for c := 0; c < N; c++ {
+			v := k.AS1[i][c] + Centre(k.S2[i][c])
+			if v < 0 || v >= Q {
+				seen["t-wrap"] = true
+			}
+			t := Mod(v)
+			if t == 0 || t == Q-1 {
+				seen["t-zero"] = true
+			}
+			if _, a0 := Power2Round(t); a0 == 1<<(D-1) {
+				seen["p2r-tie"] = true
+			}
+		}
+	}
+	var out []string
+	for _, n := range []string{"t-wrap", "p2r-tie", "t-zero"} {
+		if seen[n] {
+			out = append(out, n)
+		}
+	}
+	return out
+}
